@@ -135,7 +135,7 @@ func c03FromCBEq(c *Check, label string, doc []byte, cfg *configuration.Configur
 		return fail("conversion to CTE %s", b)
 	}
 	second := decodeCTEWithRules(t.Out, cfg)
-	if second.Err != nil && hugeDecimalExponent(first.Evs) && strings.Contains(second.Err.Error(), "parse exponent") && c.Finding("decimal-exponent-beyond-int32-in-text") {
+	if exponentFinding(c, first.Evs, second.Err) {
 		return true, ""
 	}
 	if second.Hung || second.Panicked != nil || second.Err != nil {
@@ -189,6 +189,37 @@ func hugeDecimalExponent(evs []AEv) bool {
 	return false
 }
 
+// bigDecimalBeyondParser: a big decimal float whose exponent lies beyond what the CTE decoder's decimal
+// parser (apd: exponents within +-100000) reads back.
+func bigDecimalBeyondParser(evs []AEv) bool {
+	for _, e := range evs {
+		if e.M != "OnBigDecimalFloat" || e.Sp != "" {
+			continue
+		}
+		d := parseBigDFloatKey(e.K)
+		adj := int64(d.Exponent) + int64(len(d.Coeff.String())) - 1
+		if adj > 100000 || adj < -100000 || d.Exponent > 100000 || d.Exponent < -100000 {
+			return true
+		}
+	}
+	return false
+}
+
+// exponentFinding classifies a refusal of converted text as one of the two listed exponent findings.
+func exponentFinding(c *Check, evs []AEv, err error) bool {
+	if err == nil {
+		return false
+	}
+	msg := err.Error()
+	if !strings.Contains(msg, "parse exponent") && !strings.Contains(msg, "exponent out of range") {
+		return false
+	}
+	if hugeDecimalExponent(evs) && c.Finding("decimal-exponent-beyond-int32-in-text") {
+		return true
+	}
+	return bigDecimalBeyondParser(evs) && c.Finding("big-decimal-exponent-beyond-parser-limit")
+}
+
 func hasCustomText(evs []AEv) bool {
 	for _, e := range evs {
 		if e.AT == "ctxt" {
@@ -236,7 +267,7 @@ func c03FromCTE(c *Check, label string, text []byte, cfg *configuration.Configur
 		return fail("converting %x back to CTE %s", b.Out, p)
 	}
 	third := decodeCTEWithRules(back.Out, cfg)
-	if third.Err != nil && hugeDecimalExponent(second.Evs) && strings.Contains(third.Err.Error(), "parse exponent") && c.Finding("decimal-exponent-beyond-int32-in-text") {
+	if exponentFinding(c, second.Evs, third.Err) {
 		return true
 	}
 	if third.Hung || third.Panicked != nil || third.Err != nil {
